@@ -1,6 +1,7 @@
 """C11 — every accepted request gets exactly one matching response from the right zone.
 COUNT (send_response per path), gate order and rcode table, id/question echo provenance, longest-suffix search."""
 import re
+import helpers
 import core, count
 from api import shorten
 
@@ -177,3 +178,6 @@ def run(cx):
             cx.check('C11.G1', s.term == 'Catalog::find(^arg1,LowerName::base_name(^arg2))', fc.path, s.key(), 'recurse-on-immediate-parent', s.term, s.loc)
         non = cx.returns(fc, r'^Option::None$')
         cx.guard('C11.G1', non, {'only-at-root': r'^LowerName::is_root\(\^arg2\)$'}, expect=1, fn=fc)
+
+    # ---------------------------------------------------------------- H helper semantics the guards above rely on (rules/helpers.py)
+    helpers.check(cx, 'C11.H', ['Edns::version', 'LowerName::base_name', 'LowerName::is_root'])
